@@ -210,6 +210,13 @@ func (c *Ctx) ruleR06a(rule string) {
 							if p, isP := v.(*ssa.Parameter); isP {
 								return isErrorType(p.Type()) || ssax.NamedIs(p.Type(), "parsley", "Pos")
 							}
+							// a position handed out by the reader or read off an error, as in the parser itself
+							if ssax.NamedIs(v.Type(), "parsley", "Pos") || isErrorType(v.Type()) {
+								switch v.(type) {
+								case *ssa.Extract, *ssa.Call:
+									return true
+								}
+							}
 							return false
 						}
 						for _, hr := range ssax.Returns(h) {
